@@ -1,6 +1,10 @@
 """C12 — bounded work per request: resolution always terminates within its budgets."""
 
 _HM = {"middleware": ["zz_verif_export.go", "zz_verif_c12_*.go"]}
+_HT = {"middleware": ["zz_verif_export.go", "zz_verif_export_c12topo.go"],
+       "middleware/resolver": ["zz_verif_export_authsim.go", "zz_verif_export_c12topo.go"],
+       "middleware/cache": ["zz_verif_export_authsim.go", "zz_verif_export_c13zone.go"],
+       "internal/authority": ["zz_verif_export_authsim.go", "zz_verif_export_c12topo.go"]}
 
 CHECK = {
     "level": "model_checking",
@@ -16,5 +20,7 @@ CHECK = {
                    "rewrite": {"middleware": ["sync", "sync/atomic"]}, "gomaxprocs": 1, "budget_s": {"quick": 60, "thorough": 600}},
         "guard": {"pkg": "middleware", "run": "TestVerifC12Guard", "harness": _HM, "stub_tests": ["middleware"], "shards": 1,
                   "rewrite": {"middleware": ["sync", "sync/atomic"]}},
+        "topo": {"pkg": "internal/verifshim/h_c12", "run": "TestVerifC12Topo", "harness": _HT,
+                 "shards": 16, "gomaxprocs": 2, "budget_s": {"quick": 75, "thorough": 660}},
     },
 }
